@@ -114,6 +114,18 @@ def work_level(task):
                 acc.violation(f'num-cells-sum:r={r}:via={via}', f'get_num_cells({r}) = {nc}, sum of children over level {via} = {total} ({len(allk)} distinct)', case)
             else:
                 acc.n['validated'] += total
+            # the same sum through the routine that sizes its output with the child-count rule: a cover of the world of mixed levels
+            # (every third cell of level `via` replaced by its children when that stays above r), in descending and in interleaved order
+            mixed = []
+            for i, c in enumerate(coarse):
+                mixed.extend(a5.cell_to_children(c, via + 1) if (i % 3 == 1 and via + 1 <= r) else [c])
+            for name, cover in (('descending', sorted(mixed, reverse=True)), ('interleaved', mixed[::2] + mixed[1::2])):
+                got = a5.uncompact(list(cover), r)
+                acc.n['transitions'] += len(got)
+                if len(got) != nc or set(got) != allk:
+                    acc.violation(f'num-cells-uncompact:r={r}:via={via}:{name}', f'uncompact of a {name} mixed-level cover of the world ({len(cover)} cells of levels {via}/{via + 1}) to level {r} gives {len(got)} cells ({len(set(got))} distinct), get_num_cells = {nc}', case)
+                else:
+                    acc.n['validated'] += len(got)
     except Exception as e:
         acc.violation(f'level-raises:r={r}:via={via}', f'raised {e!r}', case)
     return acc
